@@ -16,6 +16,13 @@ func init() {
 			ruleEntryPair(c)
 			// object keys are the descriptor names
 			ruleFieldName(c)
+			// "valid JSON": the walker's strings and names reach the output only through the escaping loop
+			ruleJSONEscape(c)
+			ruleJSONRawString(c)
+			ruleJSONTime(c)
+			ruleDescMarshalers(c)
+			ruleJSONWalkerOut(c)
+			ruleFlatWalker(c)
 			ruleLookupStateless(c, []string{"plenccodec.Descriptor.readAsStruct"})
 		},
 	})
